@@ -69,8 +69,9 @@ type DatabaseI interface {
 }
 
 type compactionAction struct {
-	pathsToCompact []string
-	totalRecords   uint64
+	pathsToCompact      []string
+	totalRecords        uint64
+	includesOldestTable bool
 }
 
 type memStoreFlushAction struct {
